@@ -736,6 +736,16 @@ func (db *DB) doFollowLeaders(stream string, tables []*table, offsets []common.O
 				}
 			}
 		}
+		// A table that has no offset yet for a source needs that source's stream
+		// from the beginning: the other tables' offsets must not cut it short
+		// (they skip what they already have when entries arrive).
+		for _, os := range offsets {
+			for _, source := range sources {
+				if _, hasOffset := os[source]; !hasOffset {
+					earliestOffsetsBySource[source] = nil
+				}
+			}
+		}
 		offsetsMx.RUnlock()
 
 		if db.opts.MaxFollowAge > 0 {
